@@ -490,6 +490,7 @@ func runC11(w *World, r *Report) {
 
 	shareRule(w, r, "C11.interrupt-keeps-sibling-updates", "an interrupt in an eager run waits for the running siblings before the state is saved: their ProcessState updates and post-handlers are in the checkpoint", 3, "C05", "C05.wait-all-before-save")
 	shareRule(w, r, "C11.node-paths-are-own-slices", "the node path a nested run is given is a slice of its own: sibling graphs deep in a nesting do not share one backing array, or the state modifier is told the same path for both and one graph's modification lands on the other's state", 0, "C16", "C16.alias")
+	shareRule(w, r, "C11.fresh-node-fresh-state", "a node scheduled (not restored) in a resumed run starts from a context without the checkpoint the run was resumed from: a nested graph reached a second time generates a fresh state instead of reusing the finished execution's", 1, "C06", "C06.fresh-node-no-checkpoint")
 
 	r.Rule("C11.modifier-handed-down", "on a resume from the store the caller's state modifier is put into the context on every path to the restored tasks, whether or not this level has state of its own: a stateful nested graph below a stateful top-level graph gets its turn at the modifier too", 1)
 	{
